@@ -189,6 +189,15 @@ type outcome struct {
 	attempts  map[string][]kit.Attempt
 	readOnly  int
 	resends   int
+	itemless  int
+}
+
+// injectShape: one injection in six carries no leaf items (never the "empty" shape: it has no resource to carry the tag).
+func injectShape(rng *rand.Rand) string {
+	if rng.Intn(6) != 0 {
+		return "items"
+	}
+	return []string{"resource-only", "scope-only", "container-only"}[rng.Intn(3)]
 }
 
 // execute runs the collector and injects one payload at every receiver instance. plan says how the receiver sends
@@ -215,6 +224,12 @@ func execute(env *kit.Env, yaml string, rng *rand.Rand, rich bool, plan func(tag
 		}
 		so := plan(in.Tag())
 		p := kit.NewPayload(in.Signal, kit.Msg{Tag: in.Tag()}, prng)
+		if shape := injectShape(rng); shape != "items" {
+			// a payload without leaf items (a resource or scope announcement, an empty metric) is data like any other:
+			// it travels the same paths
+			p = kit.NewShapedPayload(in.Signal, shape, kit.Msg{Tag: in.Tag()}, rng)
+			o.itemless++
+		}
 		at := in.SendPayload(context.Background(), p, so)
 		o.attempts[in.Tag()] = at
 		o.injErr[in.Tag()] = at[len(at)-1].Err
@@ -417,6 +432,7 @@ func runCase(c *driver.Ctx, class string, t *kit.Topology, rng *rand.Rand) {
 			ex.ApplyAttempts(tag, at)
 		}
 	}
+	c.Observe("injections_without_leaf_items", int64(o.itemless))
 	c.Observe("injections_sent_read_only", int64(o.readOnly))
 	c.Observe("injections_resent_after_an_error", int64(o.resends))
 	insts := t.ConnInstances()
